@@ -254,7 +254,9 @@ func init() {
 		case 0:
 			return samVarGen(r, id, r.PickInt([]int{0, 2, 5}), r.Chance(1, 3))
 		case 1:
+			genSamAtBufferBoundary = r.Chance(1, 15)
 			c := samVarGen(r, id, r.PickInt([]int{0, 2, 5}), r.Chance(1, 3))
+			genSamAtBufferBoundary = false
 			c.SetBool("reffromfile", true)
 			return relOf(c, "samvar-topa", "eq")
 		default:
